@@ -239,7 +239,8 @@ pub fn replication_histories(seed: u64, n: usize, max_len: u64, with_crash: Mode
                 if blk == "-" && hsh == "-" && sk == "-" && ups == "-" { continue; }
                 let o = c.run(format!("prove W {blk} {hsh} {sk} {ups}"));
                 if o.starts_with("ok fork") {
-                    c.run("apply R".into());
+                    let t = crate::sim::proof_full_txt(c.sim.proof.as_ref().unwrap());
+                    c.run(format!("applyp R {t}"));
                     if with_crash != Mode::Log { c.crash_points("R", with_crash, &mut r, 10); }
                     if r.chance(1, 4) { c.run("probe R".into()); }
                     if r.chance(1, 8) { c.run("reopen R".into()); c.run("probe R".into()); }
@@ -252,4 +253,245 @@ pub fn replication_histories(seed: u64, n: usize, max_len: u64, with_crash: Mode
         c.end_history();
     }
     c.out
+}
+
+// ---------------------------------------------------------------------------------------------
+// adversarial peers (C04, C09)
+
+use hypercore::{Node, Proof};
+use merkle_tree_stream::Node as NodeTrait;
+
+fn flip(v: &mut Vec<u8>, r: &mut Rng) -> bool { if v.is_empty() { return false; } let bit = r.below(v.len() as u64 * 8); v[(bit / 8) as usize] ^= 1 << (bit % 8); true }
+fn bump(x: &mut u64, r: &mut Rng) -> bool { if r.chance(1, 2) { *x += 1; true } else if *x > 0 { *x -= 1; true } else { *x += 1; true } }
+fn alter_nodes(ns: &mut Vec<Node>, r: &mut Rng, protect_len_below: usize) -> Option<&'static str> {
+    let k = if ns.is_empty() { 0 } else { r.below(ns.len() as u64) as usize };
+    match r.below(8) {
+        0 if !ns.is_empty() => { let mut h = ns[k].hash().to_vec(); flip(&mut h, r); ns[k] = Node::new(ns[k].index(), h, ns[k].len()); Some("node-hash-flip") }
+        1 if !ns.is_empty() => { let mut i = ns[k].index(); bump(&mut i, r); ns[k] = Node::new(i, ns[k].hash().to_vec(), ns[k].len()); Some("node-index") }
+        2 if !ns.is_empty() && k >= protect_len_below => { let mut l = ns[k].len(); bump(&mut l, r); ns[k] = Node::new(ns[k].index(), ns[k].hash().to_vec(), l); Some("node-length") }
+        3 if !ns.is_empty() => { ns.remove(k); Some("node-drop") }
+        4 if !ns.is_empty() => { let n = ns[k].clone(); ns.insert(k, n); Some("node-dup") }
+        5 if ns.len() >= 2 => { let k = k.min(ns.len() - 2); ns.swap(k, k + 1); Some("node-swap") }
+        6 => { let idx = if ns.is_empty() { r.below(40) } else { ns[k].index() + 2 }; ns.insert(k.min(ns.len()), Node::new(idx, r.bytes(32), r.below(20))); Some("node-insert") }
+        7 if !ns.is_empty() => { ns[k] = Node::new(ns[k].index(), vec![0u8; 32], ns[k].len()); Some("node-hash-zero") }
+        _ => None,
+    }
+}
+/// one single-field alteration of a proof; returns its kind
+pub fn alter(p: &Proof, other: Option<&Proof>, r: &mut Rng) -> Option<(Proof, &'static str)> {
+    let mut q = p.clone();
+    let kind: Option<&'static str> = match r.below(16) {
+        0 => q.block.as_mut().and_then(|b| if flip(&mut b.value, r) { Some("value-flip") } else { b.value.push(7); Some("value-extend") }),
+        1 => q.block.as_mut().map(|b| { if b.value.is_empty() { b.value.push(0) } else { b.value.pop(); } "value-length" }),
+        2 => q.block.as_mut().map(|b| { bump(&mut b.index, r); "block-index" }),
+        3 => q.block.as_mut().and_then(|b| alter_nodes(&mut b.nodes, r, 0)),
+        4 => q.hash.as_mut().map(|b| { bump(&mut b.index, r); "hash-index" }),
+        5 => q.hash.as_mut().and_then(|b| alter_nodes(&mut b.nodes, r, 2)),
+        6 => q.seek.as_mut().and_then(|b| alter_nodes(&mut b.nodes, r, 2)),
+        7 => q.upgrade.as_mut().map(|u| { bump(&mut u.start, r); "upgrade-start" }),
+        8 => q.upgrade.as_mut().map(|u| { bump(&mut u.length, r); "upgrade-length" }),
+        9 => q.upgrade.as_mut().and_then(|u| alter_nodes(&mut u.nodes, r, 0)),
+        10 => q.upgrade.as_mut().and_then(|u| alter_nodes(&mut u.additional_nodes, r, 0)),
+        11 => q.upgrade.as_mut().map(|u| { if r.chance(1, 6) { u.signature.pop(); "signature-short" } else { flip(&mut u.signature, r); "signature-flip" } }),
+        12 => { bump(&mut q.fork, r); Some("fork") }
+        13 => match r.below(4) {
+            0 if q.block.is_some() && (q.upgrade.is_some() || q.hash.is_some()) => { q.block = None; Some("remove-block") }
+            1 if q.upgrade.is_some() => { q.upgrade = None; Some("remove-upgrade") }
+            2 if q.seek.is_some() => { q.seek = None; Some("remove-seek") }
+            3 if q.hash.is_some() => { q.hash = None; Some("remove-hash") }
+            _ => None },
+        14 => match (q.upgrade.as_mut(), other.and_then(|o| o.upgrade.as_ref())) { (Some(u), Some(o)) => { u.signature = o.signature.clone(); Some("signature-other-key-or-length") } _ => None },
+        _ => q.upgrade.as_mut().map(|u| { u.length = 0; u.nodes.clear(); u.additional_nodes.clear(); "upgrade-empty" }),
+    };
+    kind.map(|k| (q, k))
+}
+
+fn boundary(r: &mut Rng, len: u64) -> u64 {
+    *r.pick(&[0, 1, 2, len.saturating_sub(1), len, len + 1, 2 * len, 2 * len + 1, 2 * len + 2, 3, 7, 1 << 32, (1u64 << 40) - 1, len / 2])
+}
+
+pub fn adversarial_histories(seed: u64, n: usize, max_len: u64, requests_only: bool) -> RunOut {
+    let mut r = Rng::new(seed);
+    let mut c = Ctx { sim: Sim::new(), out: RunOut { ops: vec![], outs: vec![], stats: BTreeMap::new(), failures: vec![], samples: vec![] }, seen: HashSet::new(), hist_digest: String::new() };
+    for hi in 0..n {
+        c.run(format!("new W {SEED_HEX}"));
+        c.run("new X 9d61b19deffd5a60ba844af492ec2cc44449c5697b326919703bac031cae7f60".to_string());
+        c.run("newr R W".into());
+        let wl = match hi % 5 { 0 => 0, 1 => 1, _ => r.range(2, max_len) };
+        for _ in 0..wl { c.run(format!("append W {}", hex(&gen_block(&mut r, false)))); c.run(format!("append X {}", hex(&gen_block(&mut r, false)))); }
+        if wl > 2 && r.chance(1, 3) { let s = r.below(wl); c.run(format!("clear W {s} {}", s + 1)); }
+        let rounds = r.range(2, 7);
+        for _ in 0..rounds {
+            let wl = c.sim.h["W"].oracle.len;
+            let rl = c.sim.h["R"].oracle.len;
+            if requests_only || r.chance(1, 3) {
+                // arbitrary request tuples (C09): every field absent or at a boundary value
+                for _ in 0..6 {
+                    let opt = |r: &mut Rng, s: String| if r.chance(2, 5) { "-".to_string() } else { s };
+                    let b = { let v = format!("{}:{}", boundary(&mut r, wl), boundary(&mut r, wl)); opt(&mut r, v) };
+                    let h = { let v = format!("{}:{}", boundary(&mut r, wl), boundary(&mut r, wl)); opt(&mut r, v) };
+                    let s = { let v = format!("{}", boundary(&mut r, wl * 8)); opt(&mut r, v) };
+                    let u = { let v = format!("{}:{}", boundary(&mut r, wl), boundary(&mut r, wl)); opt(&mut r, v) };
+                    let name = if r.chance(1, 4) { "R" } else { "W" };
+                    let o = c.run(format!("prove {name} {b} {h} {s} {u}"));
+                    *c.out.stats.entry(format!("req_{}", o.split(' ').take(2).collect::<Vec<_>>().join("_").chars().take(12).collect::<String>())).or_insert(0) += 1;
+                    if o.starts_with("ok fork") && name == "W" { let t = crate::sim::proof_full_txt(c.sim.proof.as_ref().unwrap()); c.sim.proof_honest = false; c.run(format!("applyp R {t}")); }
+                }
+                c.run("probe W".into());
+                c.run(format!("append W {}", hex(&gen_block(&mut r, false))));
+                c.run(format!("append X {}", hex(&gen_block(&mut r, false))));
+                continue;
+            }
+            if wl == 0 { continue; }
+            // a well-formed request
+            let behind = rl < wl;
+            let up = if behind && (rl == 0 || r.chance(2, 3)) { let to = r.range(rl + 1, wl); Some((rl, to - rl)) } else { None };
+            let horizon = up.map(|(s, l)| s + l).unwrap_or(rl);
+            if horizon == 0 { continue; }
+            let mut blk = "-".to_string(); let mut hsh = "-".to_string(); let mut sk = "-".to_string();
+            match r.below(10) {
+                0..=5 => { let i = r.below(horizon); let o = c.run(format!("missing R {i}")); blk = format!("{i}:{}", o.strip_prefix("ok ").and_then(|x| x.parse::<u64>().ok()).unwrap_or(0)); }
+                6..=7 => { let leaf = r.below(horizon); let o = c.run(format!("missingt R {}", 2 * leaf)); hsh = format!("{}:{}", 2 * leaf, o.strip_prefix("ok ").and_then(|x| x.parse::<u64>().ok()).unwrap_or(0)); }
+                8 => { let total: u64 = c.sim.h["W"].oracle.blocks.iter().take(horizon as usize).map(|b| b.len() as u64).sum(); if total > 0 { sk = format!("{}", r.below(total)); } }
+                _ => {}
+            }
+            let ups = up.map(|(s, l)| format!("{s}:{l}")).unwrap_or("-".into());
+            if blk == "-" && hsh == "-" && sk == "-" && ups == "-" { continue; }
+            // the same request answered by another writer (different key, same shape)
+            let other = { let o = c.run(format!("prove X {blk} {hsh} {sk} {ups}")); if o.starts_with("ok fork") { c.sim.proof.clone() } else { None } };
+            let o = c.run(format!("prove W {blk} {hsh} {sk} {ups}"));
+            if !o.starts_with("ok fork") { continue; }
+            let honest = c.sim.proof.clone().unwrap();
+            let honest_txt = crate::sim::proof_full_txt(&honest);
+            // alterations first (the replica must refuse them, or stay truthful), the honest proof last
+            let mut state_changed = false;
+            for _ in 0..r.range(3, 9) {
+                if let Some((q, kind)) = alter(&honest, other.as_ref(), &mut r) {
+                    if q == honest { continue; }
+                    *c.out.stats.entry(format!("alt_{kind}")).or_insert(0) += 1;
+                    c.sim.proof_honest = false;
+                    let o = c.run(format!("applyp R {}", crate::sim::proof_full_txt(&q)));
+                    if o.starts_with("ok true") { state_changed = true; *c.out.stats.entry(format!("altaccepted_{kind}")).or_insert(0) += 1; }
+                }
+            }
+            if let Some(o) = other.as_ref() { if r.chance(1, 3) { *c.out.stats.entry("alt_other-writer-proof".into()).or_insert(0) += 1; c.sim.proof_honest = false; let out = c.run(format!("applyp R {}", crate::sim::proof_full_txt(o))); if out.starts_with("ok true") { state_changed = true; } } }
+            // (an accepted variant may have advanced the replica: the original answer is then stale)
+            c.sim.proof = Some(honest); c.sim.proof_honest = !state_changed;
+            c.run(format!("applyp R {honest_txt}"));
+            if r.chance(1, 3) { c.run("probe R".into()); }
+        }
+        // honest replication can still complete
+        let wl = c.sim.h["W"].oracle.len;
+        if wl > 0 {
+            let rl = c.sim.h["R"].oracle.len;
+            if rl < wl { let o = c.run(format!("prove W - - - {rl}:{}", wl - rl)); if o.starts_with("ok fork") { let t = crate::sim::proof_full_txt(c.sim.proof.as_ref().unwrap()); c.run(format!("applyp R {t}")); } }
+            for i in 0..wl {
+                if c.sim.h["R"].oracle.has(i) || !c.sim.h["W"].oracle.has(i) { continue; }
+                let o = c.run(format!("missing R {i}"));
+                let nn: u64 = o.strip_prefix("ok ").and_then(|x| x.parse().ok()).unwrap_or(0);
+                let o = c.run(format!("prove W {i}:{nn} - - -"));
+                if o.starts_with("ok fork") { let t = crate::sim::proof_full_txt(c.sim.proof.as_ref().unwrap()); c.run(format!("applyp R {t}")); }
+            }
+            c.run("probe R".into());
+            c.run("probe W".into());
+            c.run(format!("append W {}", hex(&gen_block(&mut r, false))));
+            c.run("probe W".into());
+        }
+        c.end_history();
+    }
+    c.out
+}
+
+// ---------------------------------------------------------------------------------------------
+// configuration independence (C14): the same history on mirrors with other backends / cache settings
+
+const MIRRORS: [(&str, &str); 5] = [("A", "cache=0"), ("B", "cache=300"), ("M", "backend=mem"), ("K", "backend=disk"), ("L", "backend=disk cache=300")];
+
+fn strip_journal(s: &str) -> String {
+    match (s.find(" j=["), s.find(']')) { (Some(a), Some(_)) => { let end = s[a..].find(']').map(|e| a + e + 1).unwrap_or(s.len()); format!("{}{}", &s[..a], &s[end..]) } _ => s.to_string() }
+}
+
+struct Mirrored { c: Ctx, last_proof: Vec<Option<String>> }
+impl Mirrored {
+    /// run `line` (about W / R) on the primary (recorded, compared with the model) and on every mirror
+    fn run(&mut self, line: String) -> String {
+        let primary = self.c.run(line.clone());
+        if line.starts_with("prove W") { /* the primary's proof text is taken by the caller */ }
+        for (mi, (m, _)) in MIRRORS.iter().enumerate() {
+            let mut l = format!("{line} ").replace(" W ", &format!(" {m} ")).replace(" R ", &format!(" R{m} ")).trim_end().to_string();
+            if l.starts_with("applyp ") {
+                match &self.last_proof[mi] { Some(t) => { l = format!("applyp R{m} {t}"); } None => continue }
+            }
+            let honest = self.c.sim.proof_honest; let saved = self.c.sim.proof.clone(); let saved_len = self.c.sim.proof_writer_len;
+            let o = self.c.sim.exec(&l);
+            if l.starts_with("prove ") { self.last_proof[mi] = if o.starts_with("ok fork") { Some(crate::sim::proof_full_txt(self.c.sim.proof.as_ref().unwrap())) } else { None }; }
+            self.c.sim.proof = saved; self.c.sim.proof_honest = honest; self.c.sim.proof_writer_len = saved_len;
+            self.c.sim.history.pop();
+            let inst = *m == "A" || *m == "B";
+            let (a, b) = if inst { (primary.clone(), o.clone()) } else if l.starts_with("dump ") {
+                let name = l.split(' ').nth(1).unwrap().to_string();
+                let pname = line.split(' ').nth(1).unwrap().to_string();
+                let a = self.c.sim.exec(&format!("dumpz {pname}")); self.c.sim.history.pop();
+                let b = self.c.sim.exec(&format!("dumpz {name}")); self.c.sim.history.pop();
+                (a, b)
+            } else { (strip_journal(&primary), strip_journal(&o)) };
+            if a != b {
+                let line_no = self.c.sim.line;
+                self.c.sim.failures.push(crate::sim::Failure { key: format!("config-divergence:{}", MIRRORS[mi].1.replace(' ', "+")), detail: format!("configuration [{}] answered [{}] where the reference configuration (instrumented backend, no cache) answered [{}] to `{}` || history: {}", MIRRORS[mi].1, crate::sim::trunc(&b), crate::sim::trunc(&a), crate::sim::trunc(&line), self.c.sim.history.iter().rev().take(40).rev().cloned().collect::<Vec<_>>().join(" ; ")), line: line_no });
+            }
+        }
+        *self.c.out.stats.entry("config_comparisons".into()).or_insert(0) += MIRRORS.len() as u64;
+        primary
+    }
+}
+
+pub fn config_histories(seed: u64, n: usize, max_ops: u64) -> RunOut {
+    let mut r = Rng::new(seed);
+    let c = Ctx { sim: Sim::new(), out: RunOut { ops: vec![], outs: vec![], stats: BTreeMap::new(), failures: vec![], samples: vec![] }, seen: HashSet::new(), hist_digest: String::new() };
+    let mut m = Mirrored { c, last_proof: vec![None; MIRRORS.len()] };
+    for _ in 0..n {
+        m.c.run(format!("new W {SEED_HEX}"));
+        for (name, opt) in MIRRORS.iter() { m.c.sim.exec(&format!("new {name} {SEED_HEX} {opt}")); m.c.sim.history.pop(); }
+        m.c.run("newr R W".into());
+        for (name, _) in MIRRORS.iter() { m.c.sim.exec(&format!("newr R{name} {name}")); m.c.sim.history.pop(); }
+        m.last_proof = vec![None; MIRRORS.len()];
+        let nops = r.range(4, max_ops);
+        for _ in 0..nops {
+            let wl = m.c.sim.h["W"].oracle.len;
+            let rl = m.c.sim.h["R"].oracle.len;
+            if r.chance(3, 5) || wl == 0 {
+                let line = random_log_op(&mut r, wl, false, false);
+                m.run(line);
+            } else {
+                // a replication request, including block/hash + seek combinations and arbitrary seeks
+                let behind = rl < wl;
+                let up = if behind && (rl == 0 || r.chance(2, 3)) { let to = r.range(rl + 1, wl); Some((rl, to - rl)) } else { None };
+                let horizon = up.map(|(s, l)| s + l).unwrap_or(rl);
+                if horizon == 0 { continue; }
+                let total: u64 = m.c.sim.h["W"].oracle.blocks.iter().take(horizon as usize).map(|b| b.len() as u64).sum();
+                let mut blk = "-".to_string(); let mut hsh = "-".to_string(); let mut sk = "-".to_string();
+                match r.below(10) {
+                    0..=3 => { let i = r.below(horizon); let o = m.run(format!("missing R {i}")); blk = format!("{i}:{}", o.strip_prefix("ok ").and_then(|x| x.parse::<u64>().ok()).unwrap_or(0)); }
+                    4..=5 => { let i = r.below(horizon); let o = m.run(format!("missing R {i}")); blk = format!("{i}:{}", o.strip_prefix("ok ").and_then(|x| x.parse::<u64>().ok()).unwrap_or(0)); if total > 0 && up.is_none() { sk = format!("{}", r.below(total)); } }
+                    6 => { let leaf = r.below(horizon); let o = m.run(format!("missingt R {}", 2 * leaf)); hsh = format!("{}:{}", 2 * leaf, o.strip_prefix("ok ").and_then(|x| x.parse::<u64>().ok()).unwrap_or(0)); }
+                    7..=8 => { if total > 0 { sk = format!("{}", r.below(total)); } }
+                    _ => {}
+                }
+                let ups = up.map(|(s, l)| format!("{s}:{l}")).unwrap_or("-".into());
+                if blk == "-" && hsh == "-" && sk == "-" && ups == "-" { continue; }
+                let o = m.run(format!("prove W {blk} {hsh} {sk} {ups}"));
+                if o.starts_with("ok fork") {
+                    let t = crate::sim::proof_full_txt(m.c.sim.proof.as_ref().unwrap());
+                    m.run(format!("applyp R {t}"));
+                    if r.chance(1, 3) { m.run("probe R".into()); }
+                    if r.chance(1, 6) { m.run("reopen R".into()); }
+                }
+            }
+            if r.chance(1, 8) { m.run("dump W".into()); }
+        }
+        m.run("probe W".into()); m.run("dump W".into()); m.run("dump R".into());
+        m.run("reopen W".into()); m.run("probe W".into()); m.run("probe R".into());
+        m.c.end_history();
+    }
+    m.c.out
 }
